@@ -189,6 +189,9 @@ def main():
                 sts = units_with_canary.get(u["unit"], [])
                 if sts and all(s == "dead" for s in sts):
                     checker_errors.append(f"{u['unit']}: no reachable normal exit (contradictory preconditions/axioms)")
+    for rep in reports:
+        for dc in rep.get("dead_calls", []):
+            checker_errors.append("vacuity: " + dc)
     for k, v in proof_obls.items():
         if v["kind"] == "vacuity":
             checker_errors.append(f"{k}: preconditions unsatisfiable")
